@@ -1,6 +1,6 @@
 //! The oracle side: boxes and rectangles as plain arrays, closed-interval membership, hulls of point
-//! sets, probe grids. Nothing in here calls vek (the `Clamp` bound on `Sc` only lets the adapter call
-//! `projected_point` on the same scalar types).
+//! sets, probe grids. Nothing in here calls vek (the `project2/3` hooks of `Sc` only route to the adapter for the
+//! element types that implement vek's `Clamp`).
 
 use std::fmt::Debug;
 use std::ops::{Add, Div, Mul, Sub};
@@ -9,7 +9,7 @@ use vkit::Rat;
 
 /// Scalars the generic checks are instantiated with.
 pub trait Sc:
-    Copy + PartialOrd + Debug + Add<Output = Self> + Sub<Output = Self> + Mul<Output = Self> + Div<Output = Self> + One + Zero + vek::ops::Clamp + 'static
+    Copy + PartialOrd + Debug + Add<Output = Self> + Sub<Output = Self> + Mul<Output = Self> + Div<Output = Self> + One + Zero + 'static
 {
     const EXACT: bool;
     fn from_i(n: i32) -> Self;
@@ -24,11 +24,31 @@ pub trait Sc:
     fn is_bot(self) -> bool {
         false
     }
+    /// `Aabr::projected_point` / `Aabb::projected_point` in this element type; None when the type does not
+    /// implement vek's `Clamp` (i128, u128 and their `Wrapping`s), so that the method does not exist for it
+    fn project2(_a: Ob<Self, 2>, _p: [Self; 2]) -> Option<[Self; 2]> {
+        None
+    }
+    fn project3(_a: Ob<Self, 3>, _p: [Self; 3]) -> Option<[Self; 3]> {
+        None
+    }
+}
+/// the two projection hooks for an element type that implements `vek::ops::Clamp`
+macro_rules! sc_project {
+    () => {
+        fn project2(a: Ob<Self, 2>, p: [Self; 2]) -> Option<[Self; 2]> {
+            Some(crate::adapter::proj2(a, p))
+        }
+        fn project3(a: Ob<Self, 3>, p: [Self; 3]) -> Option<[Self; 3]> {
+            Some(crate::adapter::proj3(a, p))
+        }
+    };
 }
 macro_rules! sc_int {
     ($($T:ident)+) => {$(
         impl Sc for $T {
             const EXACT: bool = true;
+        sc_project!();
             fn from_i(n: i32) -> $T {
                 n as $T
             }
@@ -50,6 +70,7 @@ macro_rules! sc_int {
 sc_int!(i8 i16 i64 u8 u16 u32 u64);
 impl Sc for f32 {
     const EXACT: bool = false;
+        sc_project!();
     fn from_i(n: i32) -> f32 {
         n as f32
     }
@@ -68,6 +89,7 @@ impl Sc for f32 {
 }
 impl Sc for i32 {
     const EXACT: bool = true;
+        sc_project!();
     fn from_i(n: i32) -> i32 {
         n
     }
@@ -86,6 +108,7 @@ impl Sc for i32 {
 }
 impl Sc for Rat {
     const EXACT: bool = true;
+        sc_project!();
     fn from_i(n: i32) -> Rat {
         Rat::int(n as i64)
     }
@@ -98,6 +121,7 @@ impl Sc for Rat {
 }
 impl Sc for f64 {
     const EXACT: bool = false;
+        sc_project!();
     fn from_i(n: i32) -> f64 {
         n as f64
     }
